@@ -125,6 +125,13 @@ def parse(text, line_names):
                 return None
             rest = rest[1:]
             continue
+        m2 = re.match(r'^If more than zero and not a multiple of \$([\d,]+), enter the next multiple of \$([\d,]+)$', r)
+        if m2 and m2.group(1) == m2.group(2) and term[0] == 'subfloor':
+            term = ('subfloorceil', term[1], term[2], m2.group(1).replace(',', ''))
+            rest = rest[1:]
+            while rest and re.match(r'^(For example|if the result is)', rest[0], re.I):
+                rest = rest[1:]
+            continue
         if re.match(r'^If greater than zero, enter 0$', r) and term[0] == 'sum':
             term = ('sumceil0', term[1])
             rest = rest[1:]
@@ -180,6 +187,11 @@ def lines_of(term):
     return [term[1], term[2]]
 
 
+def has_coq_term(term):
+    """terms the arithmetic readings (Arith / Xexp) can express; the others are compared on real returns only"""
+    return term[0] != 'subfloorceil'
+
+
 def evaluate(term, env):
     """reference evaluation with Fractions (for the failing-input search)"""
     from fractions import Fraction
@@ -194,6 +206,10 @@ def evaluate(term, env):
         return env[term[1]] - env[term[2]]
     if k == 'subfloor':
         return max(Fraction(0), env[term[1]] - env[term[2]])
+    if k == 'subfloorceil':
+        d = max(Fraction(0), env[term[1]] - env[term[2]])
+        u = Fraction(term[3])
+        return -((-d) // u) * u
     if k == 'scale':
         return env[term[1]] * Fraction(term[2])
     if k == 'min':
